@@ -370,6 +370,17 @@ class _HostSortedList(Host):
         return x in self._xs
 
 
+class _HostSortedSet(_HostSortedList):
+    """sortedcontainers.SortedSet: the same, without repeated elements."""
+
+    def __init__(self, iterable=None):
+        self._xs = sorted(set(iterable)) if iterable is not None else []
+
+    def add(self, x):
+        if x not in self._xs:
+            _HostSortedList.add(self, x)
+
+
 class _HostStringIO(Host):
     """io.StringIO as a host object (text streams handed to the bench reader)."""
 
@@ -457,6 +468,7 @@ class Interp:
             'collections.defaultdict': __import__('collections').defaultdict,
             'io.StringIO': _HostStringIO,
             'sortedcontainers.SortedList': _HostSortedList,
+            'sortedcontainers.SortedSet': _HostSortedSet,
             'copy.deepcopy': _deepcopy,
             'collections.deque': __import__('collections').deque,
             'more_itertools.powerset': lambda xs: (lambda s_: __import__('itertools').chain.from_iterable(__import__('itertools').combinations(s_, r) for r in range(len(s_) + 1)))(list(xs)),
